@@ -103,6 +103,29 @@ Definition site_forms (st : site) (h : str) : list str :=
   | SiteMitm => [h]
   end.
 
+(* what a site answers for a target host: yes when the list (built from the entries given for it) matches one of the
+   forms the site consults; None = the matcher could not be built / is outside the model *)
+Definition hit_model (es : list (bool * rx)) (forms : list str) : option bool :=
+  fold_right (fun f acc => match match_entries the_shape es 0 f, acc with
+                           | Ans a, Some c => Some (a || c)
+                           | _, _ => None
+                           end) (Some false) forms.
+(* an empty list means the flag was not given: the site is not installed *)
+Definition site_verdict (st : site) (es : list (bool * rx)) (h : str) : option bool :=
+  if is_nil es then Some false else hit_model es (site_forms st h).
+(* a plain request: the deny modifier runs before the route is chosen; 0 = refused, 1 = origin dialled directly, 2 = upstream proxy *)
+Definition route_code (denied direct : bool) : N := if denied then 0 else if direct then 1 else 2.
+Definition route (deny direct : list (bool * rx)) (h : str) : option N :=
+  match site_verdict SiteDeny deny h, site_verdict SiteDirect direct h with
+  | Some d, Some r => Some (route_code d r)
+  | _, _ => None
+  end.
+(* the reference identifies a fully qualified name with and without its trailing dot at the deny and the direct site
+   ("evil.test." is the host "evil.test"; /repo 36ee1cd, 47e9db6): the site is to say yes when the list matches either
+   form; the MITM filter judges the name as written *)
+Definition ref_forms (st : site) (h : str) : list str :=
+  match st with SiteDeny | SiteDirect => [h; trim_dot h] | SiteMitm => [h] end.
+
 (* ------------------------------------------------------------------ the reference *)
 (* a rule taken on its own as a regular expression, from the default flags *)
 Definition alone (r : rx) (s : str) : bool :=
